@@ -13,7 +13,7 @@ import (
 
 func init() {
 	families["C09"] = famC09
-	rules["C09"] = "abstract namespace-conformant documents (prefixes p/q/r/ns1, default namespace declared / re-declared / undeclared with xmlns=\"\", the xml prefix declared explicitly, prefixed and unprefixed attributes, mixed content, comments, PIs, prolog and epilog) " +
+	rules["C09"] = "abstract namespace-conformant documents (prefixes p/q/r/ns1, default namespace declared / re-declared / undeclared with xmlns=\"\", the xml prefix declared explicitly, prefixed and unprefixed attributes, mixed content, comments, PIs, prolog and epilog; one document in a hundred nested 130-520 deep with white-space-only text at the depths around multiples of 64) " +
 		"serialised with random choices (attribute order and quoting, text as plain text / CDATA sections / character and entity references in several pieces, CR LF line ends, self-closing tags, XML declaration, DOCTYPE, white space between prolog items, " +
 		"encodings UTF-8 / ISO-8859-1 / windows-1252 / US-ASCII); (a) xsel.ReadXml tree vs the XPath data model computed by the model from the ABSTRACT document, (b) vs the adapter model run on the token stream recorded from encoding/xml on the same bytes, " +
 		"(c) malformed texts (truncation, deleted/inserted bytes, mismatched end tags, undefined entities, invalid characters, invalid UTF-8): must be an error exactly when the recorded stream ends in a decoder error, never a tree with a nil error; " +
@@ -62,6 +62,7 @@ type xmlGen struct {
 	budget int
 	latin  bool // only characters below U+0100 (8-bit encodings)
 	ascii  bool
+	deep   int // when > 0: a chain of elements down to this depth
 }
 
 var xmlLocals = []string{"a", "b", "c", "item", "x-y", "a.b", "_u", "é", "data", "B", "n1"}
@@ -171,8 +172,8 @@ func (g *xmlGen) elem(scope map[string]string, depth int) *XItem {
 	}
 	if r.Chance(1, 4) {
 		u := pick(r, xmlURIs)
-		if _, has := sc[""]; has && r.Chance(1, 2) {
-			u = "" // xmlns="" undeclares the default namespace
+		if _, has := sc[""]; (has && r.Chance(1, 2)) || (!has && r.Chance(1, 6)) {
+			u = "" // xmlns="" undeclares the default namespace (and is legal, and means nothing, where there is none)
 		}
 		if u == "" {
 			delete(sc, "")
@@ -305,7 +306,33 @@ func (g *xmlGen) doc(enc string) []*XItem {
 		}
 		misc()
 	}
-	items = append(items, g.elem(map[string]string{}, 1))
+	root := g.elem(map[string]string{}, 1)
+	if g.deep > 0 {
+		// a chain nested far deeper than any small counter, white-space-only text around the powers of two
+		cur := root
+		cur.SelfClosing = false
+		dflt := ""
+		for _, a := range root.Raw {
+			if a.Decl && a.Prefix == "" {
+				dflt = a.URI
+			}
+		}
+		for lvl := 2; lvl <= g.deep; lvl++ {
+			kid := &XItem{Kind: "e", Local: pick(r, []string{"a", "b", "c"}), Space: dflt}
+			if lvl%64 >= 62 || lvl%64 <= 2 {
+				sp := pick(r, []string{" ", "\n", "  "})
+				if n := len(cur.Kids); n > 0 && cur.Kids[n-1].Kind == "t" {
+					cur.Kids[n-1].Pieces = append(cur.Kids[n-1].Pieces, XPiece{Mode: "plain", Text: sp, Src: sp})
+				} else {
+					cur.Kids = append(cur.Kids, &XItem{Kind: "t", Pieces: []XPiece{{Mode: "plain", Text: sp, Src: sp}}})
+				}
+			}
+			cur.Kids = append(cur.Kids, kid)
+			cur = kid
+		}
+		cur.Kids = append(cur.Kids, &XItem{Kind: "t", Pieces: []XPiece{{Mode: "plain", Text: " ", Src: " "}}})
+	}
+	items = append(items, root)
 	misc()
 	return items
 }
@@ -506,6 +533,10 @@ func famC09(rn *Runner) {
 			enc = "UTF-8"
 		}
 		g := &xmlGen{r: r, budget: rn.Scale(25, 80), latin: enc == "ISO-8859-1" || enc == "windows-1252", ascii: enc == "US-ASCII"}
+		if i%100 == 9 {
+			g.deep = pick(r, []int{130, 258, 300, 520})
+			g.budget = 6
+		}
 		items := g.doc(enc)
 		var b strings.Builder
 		var sx []string
